@@ -3,6 +3,7 @@
 package main
 
 import (
+	"encoding/json"
 	"fmt"
 	"os"
 	"regexp"
@@ -25,11 +26,14 @@ import (
 //	esub                     erecv A=subscriber
 //	resize A=length          stop / break
 //	adj    A=item B=value the adjust function returns from now on
+//	batch  A=item whose adjust function is HELD (blocks when consulted) while the stimuli Sub are given one after the
+//	       other (quiescence in between, no observation), then released; one observation for the whole batch
 type Stim struct {
 	Op  string `json:"op"`
 	A   int    `json:"a"`
 	B   int    `json:"b"`
 	Adj bool   `json:"adj,omitempty"`
+	Sub []Stim `json:"sub,omitempty"`
 }
 
 // Obs is the projected observation after the queue has become quiescent.
@@ -65,6 +69,8 @@ type item struct {
 	started  bool
 	released bool
 	runs     atomic.Int64
+	hold     atomic.Bool   // the adjust function blocks on release when consulted
+	release  chan struct{} // closed to let a held adjust function return
 }
 
 type sess struct {
@@ -80,9 +86,13 @@ type sess struct {
 	onStep   func(Step)
 	opts     []Opt // the NewQueue options, in the order they were passed
 	hung     bool  // a synchronous call of the script never returned: the script ends there
+	inBatch  bool  // inside a batch stimulus: act and wait for quiescence, but do not observe or record
 	onIntent func(Stim)
 	stopped  bool
 }
+
+// progressPath: file that always holds the script (so far) of the session in progress
+var progressPath string
 
 var hdrRe = regexp.MustCompile(`^goroutine (\d+) \[([^\],]+)`)
 
@@ -291,15 +301,50 @@ func (s *sess) do(st Stim) Obs {
 	if s.hung {
 		return Obs{Res: -1, Note: "skipped: an earlier call of this script never returned"}
 	}
-	if s.onIntent != nil {
+	if s.onIntent != nil && !s.inBatch {
 		if st.Op == "enq" {
 			st.B = len(s.items)
 		}
 		s.onIntent(st)
 	}
+	if progressPath != "" && !s.inBatch {
+		// what is being executed right now, for the runner: if the queue under test panics, the process dies here
+		stims := make([]Stim, 0, len(s.steps)+1)
+		for _, x := range s.steps {
+			stims = append(stims, x.S)
+		}
+		stims = append(stims, st)
+		if b, err := json.Marshal(map[string]any{"W": s.W, "L": s.L, "opts": s.opts, "stimuli": stims}); err == nil {
+			os.WriteFile(progressPath, b, 0o644)
+		}
+	}
 	res := 0
 	note := ""
 	switch st.Op {
+	case "batch":
+		// The dispatcher is parked inside AdjustPriorities (in the held adjust function) while further stimuli pile up;
+		// after the release it finds several of its select cases ready at once - the only way to reach, from outside,
+		// the states in which an arrival and a completion token compete.
+		sub := append([]Stim{}, st.Sub...)
+		st.Sub = sub
+		var held *item
+		if st.A >= 0 && st.A < len(s.items) {
+			held = s.items[st.A]
+			held.release = make(chan struct{})
+			held.hold.Store(true)
+		}
+		s.inBatch = true
+		for i := range sub {
+			if sub[i].Op == "enq" {
+				sub[i].B = len(s.items)
+			}
+			s.do(sub[i])
+		}
+		s.inBatch = false
+		if held != nil {
+			held.hold.Store(false)
+			close(held.release)
+		}
 	case "enq":
 		it := &item{idx: len(s.items), prio: st.A, adj: st.Adj, gate: make(chan int, 1)}
 		st.B = it.idx // the name of an item is its index
@@ -321,7 +366,13 @@ func (s *sess) do(st Stim) Obs {
 			eo = append(eo, workqueue.WithPriority(it.prio))
 		}
 		if it.adj {
-			eo = append(eo, workqueue.WithAdjustPriority(func() int { it.consults.Add(1); return int(it.adjVal.Load()) }))
+			eo = append(eo, workqueue.WithAdjustPriority(func() int {
+				it.consults.Add(1)
+				if it.hold.Load() {
+					<-it.release
+				}
+				return int(it.adjVal.Load())
+			}))
 		}
 		eo = permute(eo, it.idx/2)
 		go func() {
@@ -412,6 +463,9 @@ func (s *sess) do(st Stim) Obs {
 	}
 	if !quiesce() {
 		s.unstable = true
+	}
+	if s.inBatch {
+		return Obs{Res: res}
 	}
 	o := s.observe()
 	o.Res = res
